@@ -191,8 +191,12 @@ func runC11(c *Ctx) {
 		}
 	}
 
-	// ---- R3 ---------------------------------------------------------------------------------
-	rule = "R3-cookie-store-clear"
+	runC11R3R4(c, "R3-cookie-store-clear", "R4-same-name-opts")
+}
+
+// runC11R3R4 holds the cookie-store sweep and setter/deleter agreement rules (also used by C18.R4).
+func runC11R3R4(c *Ctx, r3, r4 string) {
+	rule := r3
 	cclear := c.Fn(rule, "(*pkg/sessions/cookie.SessionStore).Clear")
 	setCookie := c.StdFunc(rule, "net/http.SetCookie")
 	makeCookie := c.Fn(rule, "(*pkg/sessions/cookie.SessionStore).makeCookie")
@@ -284,7 +288,7 @@ func runC11(c *Ctx) {
 	}
 
 	// ---- R4 ---------------------------------------------------------------------------------
-	rule = "R4-same-name-opts"
+	rule = r4
 	mk := c.Fn(rule, "pkg/cookies.MakeCookieFromOptions")
 	if mk != nil {
 		type site struct {
